@@ -239,6 +239,9 @@ CommonDefs == <<
   D("K-nest", TChoice(<<C(TRef("K-ib")), C(TNull), C(TSeq(<<C(I07)>>, FALSE, <<>>))>>, FALSE, <<>>)),
   D("L-ref", TSeqOf(TRef("K-ib"), CNone)),
   D("M-seq", TSetOf(TSeq(<<C(I07), O(TBool)>>, FALSE, <<>>), CNone)),
+  \* element encodings of more than 32 octets (they outgrow the first buffer of the SET OF sorter)
+  D("Q-pair", TSeq(<<C(TOctets(R(18, 20))), C(TOctets(R(18, 20)))>>, FALSE, <<>>)),
+  D("M-long", TSetOf(TRef("Q-pair"), CNone)),
   D("G-dflt", TTag("C", 7, "D", Int0)),
   D("G-choice", TTag("C", 5, "D", TRef("K-ib"))) >>
 \* legal only because AUTOMATIC TAGS makes the components distinct
